@@ -343,8 +343,26 @@ def r18d(ctx):
                 outer = next((a for a in _anc(c) if isinstance(a, ast.Call) and call_name(a) in ("all", "any")), None)
                 if not over_stack and outer is None and (dotted(gen.iter) in listnames or dotted(gen.iter) in func_params(g.node)):
                     shortcuts.append((g, c))
+    def bypasses(e, leaf_polarity):
+        """Sub-expressions that can decide 'leaf' on their own without expanding the grandchild."""
+        if isinstance(e, ast.UnaryOp) and isinstance(e.op, ast.Not):
+            return bypasses(e.operand, not leaf_polarity)
+        if isinstance(e, ast.BoolOp):
+            alone = isinstance(e.op, ast.Or) == leaf_polarity       # each operand can settle 'leaf' by itself
+            if alone:
+                return [b for v in e.values for b in bypasses(v, leaf_polarity)]
+            per = [bypasses(v, leaf_polarity) for v in e.values]
+            return [] if any(not b for b in per) else per[0]
+        return [] if reaches_expand(e) else [e]
     for g, c in shortcuts:
-        if reaches_expand(c):
+        elt = c.args[0].elt
+        by = bypasses(elt, call_name(c) == "all")
+        if by:
+            ctx.violation("R18d", f, g.short, by[0], "leaf shortcut uses expand()",
+                          f"`{norm(by[0], 70)}` can declare a grandchild a leaf without calling self.expand() on it: objects expanded "
+                          f"by default_expander (custom classes in pydiff) have no registered expander but do have children, so a "
+                          f"cycle running only through such objects skips the ancestor scan and is expanded forever")
+        elif reaches_expand(c):
             ctx.proved("R18d", f, g.short, c, "leaf shortcut uses expand()",
                        "a grandchild counts as a leaf only if self.expand(grandchild) yields nothing - the same expansion the traversal uses")
         else:
